@@ -405,15 +405,23 @@ func updateResOne(res Resolver, rel UniRel) []UniRel {
 	}
 }
 
-func updateResolver(res Resolver, rels []UniRel) Resolver {
+func updateResolverF(fuel int, res Resolver, rels []UniRel) Resolver {
 	nrels := frt.Pipe(frt.Pipe(rels, (func(_r0 []UniRel) [][]UniRel {
 		return slice.Map((func(_r0 UniRel) []UniRel { return updateResOne(res, _r0) }), _r0)
 	})), slice.Concat)
 	return frt.IfElse(slice.IsEmpty(nrels), (func() Resolver {
 		return res
 	}), (func() Resolver {
-		return updateResolver(res, nrels)
+		nfuel := (fuel - slice.Length(nrels))
+		frt.IfOnly((nfuel < 0), (func() {
+			PanicNow("Type inference does not settle, maybe cyclic type.")
+		}))
+		return updateResolverF(nfuel, res, nrels)
 	}))
+}
+
+func updateResolver(res Resolver, rels []UniRel) Resolver {
+	return updateResolverF(100000, res, rels)
 }
 
 func transTypeLfd(transTV func(TypeVar) FType, lfd LetFuncDef) LetFuncDef {
